@@ -12,6 +12,13 @@ def trInst11 (v : Variant) (s : State) (sender self : Addr) (funds : List Coin) 
     allowed := (s.bank.sendFunds sender self funds).isSome && instGates v s.now m,
     members := m.members, nStages := m.stages.length, stageMembers := m.stageMembers, distinctCap := false }
 
+theorem settle_fairBurn_empty (self fee : Nat) :
+    WlMembers.settle WlMembers.emptyBank fee (Sg1.fairBurn self fee none) =
+      .ok ⟨0, burnShare fee, fee - burnShare fee⟩ := by
+  rw [settle_fairBurn]
+  generalize burnShare fee = x
+  simp [WlMembers.emptyBank]
+
 /-- C11's `instantiate` of a list kind once the fee has been paid exactly (generic in the message) -/
 theorem inst11_eq {k : WlMembers.Kind} (hk : k ≠ .immutable) (M : WlMembers.InstMsg) {payment : Nat}
     (hlim : ¬(M.memberLimit = 0 ∨ M.memberLimit > k.maxMembers)) (hal : M.allowed = true)
@@ -42,14 +49,43 @@ theorem inst11_eq {k : WlMembers.Kind} (hk : k ≠ .immutable) (M : WlMembers.In
   have hchk : Sg1.checkedFairBurn M.funds M.self (WlMembers.creationFee k M.memberLimit) none =
       .ok (Sg1.fairBurn M.self (WlMembers.creationFee k M.memberLimit) none) := by
     rw [← hfee]; exact WlMembers.checkedFairBurn_exact hmp.1 hmp.2
-  have hset := settle_fairBurn WlMembers.emptyBank M.self (WlMembers.creationFee k M.memberLimit)
+  have hset := settle_fairBurn_empty M.self (WlMembers.creationFee k M.memberLimit)
   have hne : ¬ payment ≠ WlMembers.creationFee k M.memberLimit := fun h => h hfee
   unfold WlMembers.instantiate
   split
   · exact absurd rfl hk
-  · simp only [hlim, if_false, hal, Bool.not_true, Bool.false_eq_true, hlen, hpay, hne, hchk, hdc]
-    rw [hfee, hset]
-    simp [WlMembers.emptyBank]
+  · generalize WlMembers.creationFee k M.memberLimit = f at hfee hchk hset hne ⊢
+    subst hfee
+    generalize Sg1.fairBurn M.self payment none = msgs at hchk hset
+    generalize burnShare payment = x at hset ⊢
+    rw [if_neg hlim]
+    split
+    · rename_i h; rw [hal] at h; simp at h
+    split
+    · rename_i h; rw [hlen] at h; cases h
+    dsimp only
+    split
+    · rename_i e he; rw [hpay] at he; cases he
+    rename_i p' hp'
+    rw [hpay] at hp'
+    simp only [Except.ok.injEq] at hp'
+    subst hp'
+    split
+    · rename_i h; exact absurd rfl h
+    split
+    · rename_i e he; rw [hchk] at he; cases he
+    rename_i msgs' hm'
+    rw [hchk] at hm'
+    simp only [Except.ok.injEq] at hm'
+    subst hm'
+    split
+    · rename_i e he; rw [hset] at he; cases he
+    rename_i bank hbank
+    rw [hset] at hbank
+    simp only [Except.ok.injEq] at hbank
+    subst hbank
+    rw [hdc]
+    simp only [Bool.not_false, Bool.true_and, decide_eq_true_eq]
     split
     · rfl
     · split
@@ -59,5 +95,90 @@ theorem inst11_eq {k : WlMembers.Kind} (hk : k ≠ .immutable) (M : WlMembers.In
       · cases WlMembers.instList k (WlMembers.effWhale k M.whaleCap) M.memberLimit (WlMembers.prep k M.members) with
         | error e => rfl
         | ok r => obtain ⟨st, num⟩ := r; rfl
+
+theorem creationFee_ge {k : WlMembers.Kind} {limit : Nat} (hp : 2 ≤ k.price) (hl : limit ≠ 0) :
+    2 ≤ WlMembers.creationFee k limit := by
+  unfold WlMembers.creationFee
+  have : 1 ≤ WlMembers.tiers limit := by unfold WlMembers.tiers; omega
+  calc 2 ≤ k.price := hp
+    _ = 1 * k.price := by omega
+    _ ≤ _ := Nat.mul_le_mul_right _ this
+
+/-- inversion of the composite's list-kind instantiate -/
+theorem instListKind_ok {v : Variant} {now : Nat} {self : Addr} {funds : List Coin} {m : InstMsg} {w : Wl} {msgs : List Msg}
+    (h : instListKind v now self funds m = .ok (w, msgs)) :
+    ¬(m.memberLimit = 0 ∨ m.memberLimit > v.kind11.maxMembers) ∧ instGates v now m = true ∧
+    (v.tiered && decide (m.stageMembers.length ≠ m.stages.length)) = false ∧
+    mustPay funds NATIVE = .ok (WlMembers.creationFee v.kind11 m.memberLimit) ∧
+    msgs = Sg1.fairBurn self (WlMembers.creationFee v.kind11 m.memberLimit) none ∧
+    ¬ m.memberLimit < (if v.tiered then (m.stageMembers.map (fun ms => (WlMembers.prep v.kind11 ms).length)).sum
+                        else (WlMembers.prep v.kind11 m.members).length) ∧
+    (let base : Wl :=
+        { blankWl v self with admins := m.admins, mutable_ := m.adminsMutable, memberLimit := m.memberLimit,
+                              whaleCap := WlMembers.effWhale v.kind11 m.whaleCap,
+                              g := Ghost.zero.fee (WlMembers.creationFee v.kind11 m.memberLimit) msgs }
+     if v.tiered then
+       ∃ gs num, WlMembers.instStages v.kind11 (WlMembers.effWhale v.kind11 m.whaleCap) m.memberLimit m.stageMembers 0 = .ok (gs, num) ∧
+         ¬ m.memberLimit < num ∧ w = { base with stages := normStages v m.stages, numMembers := num, smembers := gs }
+     else
+       ∃ st num, WlMembers.instList v.kind11 (WlMembers.effWhale v.kind11 m.whaleCap) m.memberLimit
+           (WlMembers.prep v.kind11 m.members) = .ok (st, num) ∧
+         ¬ m.memberLimit < num ∧
+         w = { base with start := m.start, end_ := m.end_, mintPrice := m.mintPrice,
+                         perAddr := (if v.flex then 0 else m.perAddr), numMembers := num, members := st }) := by
+  unfold instListKind at h
+  simp only [] at h
+  split at h; · cases h
+  rename_i hlim
+  split at h; · cases h
+  rename_i hg
+  split at h; · cases h
+  rename_i hlen
+  split at h; · cases h
+  rename_i payment hpay
+  split at h; · cases h
+  rename_i hfee
+  have hfee' : payment = WlMembers.creationFee v.kind11 m.memberLimit := by
+    rcases Nat.lt_trichotomy payment (WlMembers.creationFee v.kind11 m.memberLimit) with h1 | h1 | h1
+    · exact absurd (Nat.ne_of_lt h1) hfee
+    · exact h1
+    · exact absurd (Nat.ne_of_gt h1) hfee
+  subst hfee'
+  split at h; · cases h
+  rename_i msgs0 hchk
+  have hmp := WlMembers.mustPay_mayPay hpay
+  rw [WlMembers.checkedFairBurn_exact hmp.1 hmp.2] at hchk
+  simp only [Except.ok.injEq] at hchk
+  subst hchk
+  have hg' : instGates v now m = true := by
+    cases hx : instGates v now m with
+    | true => rfl
+    | false => rw [hx] at hg; simp at hg
+  have hlen' : (v.tiered && decide (m.stageMembers.length ≠ m.stages.length)) = false := by
+    cases hx : (v.tiered && decide (m.stageMembers.length ≠ m.stages.length)) with
+    | false => rfl
+    | true => exact absurd hx hlen
+  refine ⟨hlim, hg', hlen', hpay, ?_⟩
+  by_cases ht : v.tiered = true
+  · simp only [ht, if_true] at h ⊢
+    split at h; · cases h
+    rename_i hraw
+    split at h; · cases h
+    rename_i gs num hst
+    split at h; · cases h
+    rename_i hnum
+    simp only [Except.ok.injEq, Prod.mk.injEq] at h
+    obtain ⟨rfl, rfl⟩ := h
+    exact ⟨rfl, hraw, gs, num, hst, hnum, rfl⟩
+  · simp only [ht, if_false, Bool.false_eq_true] at h ⊢
+    split at h; · cases h
+    rename_i hraw
+    split at h; · cases h
+    rename_i st num hst
+    split at h; · cases h
+    rename_i hnum
+    simp only [Except.ok.injEq, Prod.mk.injEq] at h
+    obtain ⟨rfl, rfl⟩ := h
+    exact ⟨rfl, hraw, st, num, hst, hnum, rfl⟩
 
 end LP.WF
